@@ -59,41 +59,54 @@ class NameG:
         self.feats = set()
         self.n_obs = 0
         self.flows = []
+        self.aims = []          # (kind, member, flow / action the observer is about): the drivers aim at these
 
     # ---- the match spec of one observer
     def spec_text(self, kind, member):
-        """-> (text of the spec, parameter of the observer flow or None)"""
+        """-> (text of the spec, parameter of the observer flow or None, the flow / action type the spec is about or None)"""
         r = self.rng
         if kind == "flow-name":
             t = r.choice(TARGETS)
             margs = ""
             if member in ("Started", "Finished", "Failed", "Start") and r.random() < 0.2:
                 margs = 'flow_id="%s"' % t
-            return f"{t}.{member}({margs})", None
+            cargs = ""
+            if r.random() < 0.2:
+                cargs = "(p=1)"               # constructor arguments of the flow given by name
+                self.feats.add("obs-ctor-args")
+            return f"{t}{cargs}.{member}({margs})", None, t
         if kind == "action-name":
             a = r.choice(ACTIONS)
-            cargs = "(x=1)" if r.random() < 0.25 else ""
+            cargs = ""
+            if r.random() < 0.25:
+                cargs = "(x=1)"
+                self.feats.add("obs-ctor-args")
             margs = ""
             if member == "Change" and r.random() < 0.5:
                 margs = 'arguments={"x": 2}'
-            return f"{a}{cargs}.{member}({margs})", None
+            return f"{a}{cargs}.{member}({margs})", None, a
         if kind in ("flow-ref", "action-ref"):
-            return f"$ref.{member}()", "ref"
+            return f"$ref.{member}()", "ref", None
         # bare event
         n = member
         args = ""
+        t = None
         if n.endswith("Flow") or n.startswith("Flow"):
+            t = r.choice(TARGETS)
             if r.random() < 0.7:
-                args = 'flow_id="%s"' % r.choice(TARGETS)
-        return f"{n}({args})", None
+                args = 'flow_id="%s"' % t
+        elif "FooAction" in n:
+            t = "FooAction"
+        return f"{n}({args})", None, t
 
     def observer(self, kind, member):
         """one observer flow; returns (name, parameter or None)"""
         r = self.rng
         self.n_obs += 1
         name = f"ob{self.n_obs}"
-        spec, param = self.spec_text(kind, member)
+        spec, param, about = self.spec_text(kind, member)
         self.feats.add(f"obs:{kind}:{member}")
+        self.aims.append((kind, member, about))
         body = []
         if r.random() < 0.2:
             body.append(["match", ["ev", r.choice(EVENTS), []]])
@@ -113,9 +126,20 @@ class NameG:
             # reached again by the next loop iteration
             body += [["raw", "while True"], ["raw", "  match " + spec], ["raw", "  send " + out[1] + "()"]]
             self.feats.add("obs-loop")
-        else:
+        elif x < 0.95:
             body += [["raw", "match " + spec], out, ["raw", "match " + spec], ["send", r.choice(OUTS), []]]
             self.feats.add("obs-twice")
+        else:
+            body += [["raw", "match " + spec]]
+            self.feats.add("obs-chain")
+        if kind != "bare" and (x >= 0.95 or r.random() < 0.25):
+            # the head steps from one match DIRECTLY onto another match over the same object with another member
+            pool = [m for m in (FLOW_MEMBERS if kind.startswith("flow") else ACTION_MEMBERS)
+                    if m != member and m in ("Start", "Started", "Finished", "Failed", "Stop", "Updated")]
+            m2 = r.choice(pool)
+            head, _, tail = spec.rpartition("." + member + "(")
+            body += [["raw", "match " + head + "." + m2 + "()"], ["send", r.choice(OUTS), []]]
+            self.feats.add("obs-chain")
         deco = []
         if r.random() < 0.1:
             deco.append(r.choice(['@loop("L1")', '@loop("NEW")']))
@@ -173,6 +197,34 @@ class NameG:
             nv[0] += 1
             return f"{p}{nv[0]}"
 
+        # statements aimed at what the observers wait for (the rest is random)
+        for kind, member, about in self.aims:
+            if r.random() < 0.25:
+                continue
+            if kind in ("flow-name", "flow-ref", "bare") and (about in TARGETS or kind == "flow-ref"):
+                t = about if about in TARGETS else r.choice(TARGETS)
+                v = var("f")
+                frefs.append(v)
+                out.append(["start_flow", t, [], v])
+                if r.random() < 0.4:
+                    out.append(["match", ["ev", r.choice(EVENTS), []]])
+                key = member.replace("Flow", "")
+                if key in ("Stop", "Failed"):
+                    out.append(["raw", r.choice([f'send StopFlow(flow_id="{t}")', f"send ${v}.Stop()"])])
+                elif key in ("Finished", "Finish"):
+                    out.append(["raw", r.choice([f'send FinishFlow(flow_id="{t}")', f"send FinishFlow(flow_instance_uid=${v}.uid)"])])
+                elif key in ("Pause", "Resume"):
+                    out.append(["raw", r.choice([f"send ${v}.{key}()", f'send {key}Flow(flow_id="{t}")'])])
+            elif kind in ("action-name", "action-ref", "bare") and about is not None:
+                v = var("a")
+                arefs.append(v)
+                out.append(["start_action", about if about in ACTIONS else r.choice(ACTIONS), [], v])
+                if "Stop" in member:
+                    out.append(["raw", f"send ${v}.Stop()"])
+                elif "Change" in member:
+                    out.append(["raw", f'send ${v}.Change(arguments={{"x": 2}})'])
+            if r.random() < 0.5:
+                out.append(["match", ["ev", r.choice(EVENTS), []]])
         for _ in range(n):
             x = r.random()
             t = r.choice(TARGETS)
@@ -220,7 +272,7 @@ class NameG:
                 main += self.launch(name, None)
         if r.random() < 0.3:
             main.append(["match", ["ev", r.choice(EVENTS), []]])
-        drv, frefs, arefs = self.drivers(r.choice([3, 4, 5, 6]))
+        drv, frefs, arefs = self.drivers(r.choice([1, 2, 3, 4, 5]))
         if ref_obs:
             # an observer over a reference is started once the object exists: right behind the statement that creates it
             for name, kind in ref_obs:
@@ -248,8 +300,10 @@ def cases(rng, tier):
     out = []
     cs = combos()
     # every combination on its own (x2 quick / x12 thorough with other shapes) ...
-    for rep in range(2 if quick else 12):
+    for rep in range(3 if quick else 15):
         for kind, member in cs:
+            if rep >= (2 if quick else 12) and kind not in ("flow-name", "action-name"):
+                continue          # one more round for the objects given by NAME
             g = NameG(rng)
             prog = g.program([(kind, member)])
             out.append({"kind": "gen", "prog": prog, "history": refgen.history(rng, rng.randrange(3, hmax + 1)), "tie_seed": rng.randrange(1 << 30),
